@@ -1,6 +1,7 @@
 package main
 
 import (
+	"regexp"
 	"sync"
 	"encoding/json"
 	"fmt"
@@ -361,10 +362,16 @@ func (ks *knownSet) matchAny(obl string) *knownFinding {
 	return nil
 }
 
+var reEdgeSuffix = regexp.MustCompile(`(@\d+|~\d+)+$`)
+
+// A finding names an invariant or clause of a loop or call site; the numbering
+// of back edges (@n) and of repeated obligations (~n) depends on how the code
+// around it happens to be laid out, so it is not part of the identity (the
+// class predicate still limits what the finding covers).
 func (ks *knownSet) match(prop, obl string) *knownFinding {
 	for i := range ks.list {
 		k := &ks.list[i]
-		if k.Kind == "finding" && k.Property == prop && k.Obligation == obl {
+		if k.Kind == "finding" && k.Property == prop && (k.Obligation == obl || reEdgeSuffix.ReplaceAllString(k.Obligation, "") == reEdgeSuffix.ReplaceAllString(obl, "")) {
 			return k
 		}
 	}
